@@ -280,7 +280,7 @@ const SUFFIXES: [&str; 16] = [
 pub fn neighbour(r: &mut Rng, v: &str, letters: bool) -> String {
     for _ in 0..20 {
         let mut t = split_tokens(v);
-        let cand = match r.below(8) {
+        let cand = match r.below(10) {
             0 => format!("{v}{}", SUFFIXES[r.below(SUFFIXES.len())]),
             1 if !t.is_empty() => {
                 let i = r.below(t.len());
@@ -336,7 +336,7 @@ pub fn neighbour(r: &mut Rng, v: &str, letters: bool) -> String {
                     _ => format!("{v}_"),
                 }
             }
-            _ => {
+            7 => {
                 // drop a trailing token
                 if t.len() < 2 {
                     continue;
@@ -344,12 +344,86 @@ pub fn neighbour(r: &mut Rng, v: &str, letters: bool) -> String {
                 t.pop();
                 t.concat()
             }
+            8 => respell_number(r, v),
+            _ => {
+                // one more revision marker: behind the version, or in front of
+                // one of its separators (the last one read is the revision)
+                let j = *r.pick(&["nb0", "nb1", "nb2", "nb3", "nb", "nb+1"]);
+                let seps: Vec<usize> = (0..t.len()).filter(|&i| t[i] == "." || t[i] == "_").collect();
+                if seps.is_empty() || r.chance(1, 2) {
+                    format!("{v}{j}")
+                } else {
+                    t.insert(*r.pick(&seps), j.to_string());
+                    t.concat()
+                }
+            }
         };
         if cand != v && usable(&cand) && (letters || !has_free_letter(&cand)) {
             return cand;
         }
     }
     format!("{v}.1")
+}
+
+/// Spellings of a number that a tolerant number reader (`str::parse`,
+/// `strtol`, `atoi`) takes for the value but the version rule does not: a
+/// sign, blanks around it, a radix prefix, digit grouping, an exponent.
+/// Under the rule the extra characters are ordinary (ignored or letters).
+pub const NUM_SPELLINGS: [(&str, &str); 10] =
+    [("+", ""), ("+0", ""), (" ", ""), ("", " "), ("0x", ""), ("", "_"), ("", "e0"), ("+", "+"), ("\t", ""), ("0", "")];
+
+/// One digit run of `v` respelt with one of NUM_SPELLINGS (`v` itself when
+/// it has none).
+pub fn respell_number(r: &mut Rng, v: &str) -> String {
+    let mut t = split_tokens(v);
+    let idxs: Vec<usize> = (0..t.len()).filter(|&i| t[i].bytes().all(|b| b.is_ascii_digit())).collect();
+    if idxs.is_empty() {
+        return v.to_string();
+    }
+    let i = *r.pick(&idxs);
+    let (a, b) = *r.pick(&NUM_SPELLINGS);
+    t[i] = format!("{a}{}{b}", t[i]);
+    t.concat()
+}
+
+/// The same version with every kind of tail a second, hand-written reader
+/// of the revision would see differently from the tokeniser: `stem` and its
+/// equal-valued respelling `stem.0`, each followed by "nb" and every string
+/// of up to two tokens (three over the core alphabet) of digits, signs,
+/// separators and blanks, and each of those followed by a further revision.
+/// ("Split at the last nb and read a number" agrees with the tokeniser on
+/// almost all of these and on none of the others.)
+pub fn revision_cluster(stem: &str) -> Vec<String> {
+    const T2: [&str; 9] = ["0", "1", "2", "7", "+", ".", "_", " ", "nb"];
+    const T3: [&str; 4] = ["1", "2", ".", "+"];
+    let mut tails: Vec<String> = vec![String::new()];
+    for a in T2 {
+        tails.push(a.to_string());
+        for b in T2 {
+            tails.push(format!("{a}{b}"));
+        }
+    }
+    for a in T3 {
+        for b in T3 {
+            for c in T3 {
+                tails.push(format!("{a}{b}{c}"));
+            }
+        }
+    }
+    tails.sort();
+    tails.dedup();
+    let mut out = vec![];
+    for st in [stem.to_string(), format!("{stem}.0")] {
+        out.push(st.clone());
+        for t in &tails {
+            for again in ["", "nb1", "nb2"] {
+                out.push(format!("{st}nb{t}{again}"));
+            }
+        }
+    }
+    out.sort();
+    out.dedup();
+    out
 }
 
 /// Does the version contain a letter that is not part of a modifier/nb?
